@@ -1,6 +1,6 @@
 """Per-property metadata: single source of truth for MANIFEST.json."""
 
-HOOK_COMMITS = ["de1cf5f", "8fe0b83"]
+HOOK_COMMITS = ["de1cf5f", "8fe0b83", "8b52b07"]
 
 NOTES = ("All checks: bin/check <ID> --tier quick|thorough; exit 0 held / 1 VIOLATION / 2 infrastructure. "
          "Scratch under ${VERIF_SCRATCH:-/var/tmp}, removed on exit. known_findings.json lists recorded defects.")
@@ -18,6 +18,16 @@ CHECKS = {
                  "|int| < 2^30, dyadic floats, 1-4 byte UTF-8; int64 wrap-around and float rounding are not modelled (programs leaving the "
                  "range are counted as excluded)."),
         "technique": "TLA+ reference interpreter evaluated by TLC (all nondeterministic branches) vs real compile+run, per program",
+    },
+    "C03": {
+        "text": ("Optimizer.tla transcribes optimizeFunc on index-addressed code; TLC checks NoPanic, RemovedUnreachable, Simulates, EndOK, "
+                 "EndsInRet, PosPreserved for every instruction sequence up to the length bound over all jump kinds. Every real optimizer "
+                 "invocation (input/output recorded by a guarded hook) is validated by TLC against Optimize() and the same properties; "
+                 "optimized and unoptimized twins (hook verifNoDCE) are run and must give identical results, error text and positions, "
+                 "and the optimized run must agree with TengoSem."),
+        "design_ref": "DESIGN.md 5.5, 8/C03",
+        "note": "Trusted: TLC; the abstraction of byte code to index-addressed instructions in the harness; the two guarded hooks.",
+        "technique": "TLA+ transcription model-checked exhaustively (small scope) + artefact validation of real optimizer in/out pairs + twin runs",
     },
     "C07": {
         "text": ("TLC checks RunContext.tla (PlusCal model of Compiled.RunContext + VM abort protocol) over all interleavings of "
